@@ -1,0 +1,18 @@
+//go:build verif
+
+package curve25519
+
+// Contracts for package curve25519, checked by /verif (govc). Comment-only file: it adds no declarations.
+// Assumed: the bodies call x/crypto/curve25519 and crypto/rand; results are the idealised X25519 functions.
+
+//@ func GeneratePrivateKey() (k)
+//@   trusted
+//@   pure
+//@ func PublicKey(privateKey) (k)
+//@   trusted
+//@   pure
+//@   ensures seq(k) == x25519_base(seq(privateKey))
+//@ func SharedSecret(privateKey, otherPublicKey) (k)
+//@   trusted
+//@   pure
+//@   ensures seq(k) == x25519(seq(privateKey), seq(otherPublicKey))
